@@ -1,7 +1,7 @@
 (* C07 - geo-addressed packets are delivered exactly inside the destination area.
    Audited statements only; proofs in Proofs/GeoProofs.v and Proofs/RouterProofs.v. *)
 From Coq Require Import QArith.
-From FlexVerif Require Import Base.Prelude Model.Geo Model.LocT Model.Wire Model.Router Proofs.GeoProofs Proofs.RouterProofs.
+From FlexVerif Require Import Base.Prelude Model.Geo Model.LocT Model.Wire Model.Router Proofs.GeoProofs Proofs.RouterProofs Proofs.C07HopProofs.
 
 (* -- EN 302 931: F >= 0 characterises the circle, rectangle and ellipse, including the azimuth rotation -- *)
 Theorem C07_circle_rotation_invariant : forall r c s n e, (c * c + s * s == 1)%Q ->
@@ -56,6 +56,30 @@ Theorem C07_gac_delivered_iff_inside : forall m s now g bv cv body h inside t,
      [OInd (ind_hdr cv bv (firstn 9 (skipn 2 h)) (gbc_area h) 3 (arg 2 cv)) (skipn 44 body)]).
 Proof. exact gac_delivered_iff_inside. Qed.
 Print Assumptions C07_gac_delivered_iff_inside.
+
+(* -- the last permitted hop (remaining hop limit <= 1 on arrival): the packet is not forwarded and not buffered for
+      contention-based forwarding, but it IS delivered when the station is inside (the two theorems above hold for every
+      basic header; C07_gbc_last_hop_delivered spells the output out) -- *)
+Theorem C07_gbc_last_hop_not_forwarded : forall m s now g bv cv body p, (arg 5 bv <= 1)%Z ->
+  ~ In (OFwd p) (snd (rx_gbc m s now g bv cv body)) /\
+  (s_cbf (fst (rx_gbc m s now g bv cv body)) = s_cbf s \/
+   exists k, s_cbf (fst (rx_gbc m s now g bv cv body)) = cbf_remove (s_cbf s) k).
+Proof. exact gbc_last_hop_not_forwarded. Qed.
+Print Assumptions C07_gbc_last_hop_not_forwarded.
+
+Theorem C07_gac_last_hop_not_forwarded : forall m s now g bv cv body p, (arg 5 bv <= 1)%Z ->
+  ~ In (OFwd p) (snd (rx_gac m s now g bv cv body)) /\ s_cbf (fst (rx_gac m s now g bv cv body)) = s_cbf s.
+Proof. exact gac_last_hop_not_forwarded. Qed.
+Print Assumptions C07_gac_last_hop_not_forwarded.
+
+Theorem C07_gbc_last_hop_delivered : forall m s now g bv cv body h t, (arg 5 bv <= 1)%Z ->
+  dec_gbc body = Some h -> zero_area (arg 2 cv) h = false ->
+  lookup_ins (g_ins g) (pv_lat (s_ego s)) (pv_lon (s_ego s)) = Some true ->
+  mid_eqb (pv_addr (firstn 9 (skipn 2 h))) (m_addr m) = false ->
+  rx_mh (s_loct s) (firstn 9 (skipn 2 h)) (arg 0 h) now (m_life_ms m) (m_dpl_len m) = Some t ->
+  snd (rx_gbc m s now g bv cv body) = [OInd (ind_hdr cv bv (firstn 9 (skipn 2 h)) (gbc_area h) 4 (arg 2 cv)) (skipn 44 body)].
+Proof. exact gbc_last_hop_delivered. Qed.
+Print Assumptions C07_gbc_last_hop_delivered.
 
 (* -- area size control -- *)
 Theorem C07_oversized_request_refused : forall m s g r, g_big g = true -> req_geo m s g r = (s, [ODiscard 20]).
